@@ -4,15 +4,144 @@ import (
 	"bytes"
 	"encoding/binary"
 	"fmt"
+	"io"
 	"regexp"
 	"strconv"
 	"strings"
+	"testing/iotest"
 	"unicode/utf16"
 	"unicode/utf8"
 
+	"github.com/foxboron/go-uefi/efi"
+	"github.com/foxboron/go-uefi/efi/attributes"
+	efs "github.com/foxboron/go-uefi/efi/fs"
+	"github.com/foxboron/go-uefi/efi/signature"
 	"github.com/foxboron/go-uefi/efi/util"
 	"github.com/foxboron/go-uefi/efivar"
+	"github.com/foxboron/go-uefi/efivarfs"
+	"github.com/foxboron/go-uefi/efivarfs/fswrapper"
+	"github.com/spf13/afero"
 )
+
+const efivarsDir = "/sys/firmware/efi/efivars"
+
+// withLegacyFs runs f with the package-level API (efi.*, attributes.*) reading and writing mem
+func withLegacyFs(mem afero.Fs, f func()) {
+	oldDir, oldFs := attributes.Efivars, efs.Fs
+	attributes.Efivars = efivarsDir
+	efs.SetFS(mem)
+	defer func() {
+		attributes.Efivars = oldDir
+		efs.SetFS(oldFs)
+	}()
+	f()
+}
+
+// c17GuidStructures: "inside encoded structures a GUID is Data1, Data2, Data3 little-endian followed by Data4" and
+// "parsing the 16 bytes returns the same GUID", through the library's own structure encoders and decoders (the
+// expected bytes are put together here, from the statement): the owner of an EFI_SIGNATURE_DATA, the type and the owner
+// in an EFI_SIGNATURE_LIST, the SignatureSupport array, the CertType of a WIN_CERTIFICATE_UEFI_GUID alone and inside an
+// EFI_VARIABLE_AUTHENTICATION_2; the other spellings of the big-endian byte form (g.Bytes, WriteGUID); and the text as
+// the name of the variable file (a variable stored under <name>-<canonical text> is the one read and written by GUID,
+// through the filesystem wrapper and through the package-level API).
+func c17GuidStructures(c *Ctx, cs Case, g util.EFIGUID, wantBE, wantWire []byte, fail func(what, goObs, spec string)) {
+	if b := g.Bytes(); !bytes.Equal(b, wantBE) {
+		fail("g.Bytes() is not the big-endian byte form", hx(b), hx(wantBE))
+	}
+	wb := bytes.NewBuffer([]byte{0xee})
+	util.WriteGUID(wb, &g)
+	if want := append([]byte{0xee}, wantBE...); !bytes.Equal(wb.Bytes(), want) {
+		fail("WriteGUID does not append the big-endian byte form to the buffer", hx(wb.Bytes()), hx(want))
+	}
+	data := bytes.Repeat([]byte{0x5a}, 32)
+	le32 := func(v uint32) []byte { return []byte{byte(v), byte(v >> 8), byte(v >> 16), byte(v >> 24)} }
+	cat := func(parts ...[]byte) []byte { return bytes.Join(parts, nil) }
+	guard := func(what string, f func()) {
+		if p, msg := safely(f); p {
+			fail(what+" panicked", msg, "")
+		}
+	}
+	guard("signature data", func() {
+		want := cat(wantWire, data)
+		sd := signature.SignatureData{Owner: g, Data: data}
+		if b := sd.Bytes(); !bytes.Equal(b, want) {
+			fail("SignatureData.Bytes: the owner GUID is not Data1,Data2,Data3 little-endian then Data4", hx(b), hx(want))
+		}
+		if back, err := signature.ReadSignatureData(bytes.NewReader(want), 48); err != nil || back.Owner != g {
+			fail("ReadSignatureData does not return the owner GUID that is encoded", fmt.Sprint(err, " ", guidStr(back.Owner)), guidStr(g))
+		}
+	})
+	guard("signature list", func() {
+		if b := signature.NewSignatureList(g).Bytes(); len(b) < 16 || !bytes.Equal(b[:16], wantWire) {
+			fail("SignatureList.Bytes: the SignatureType GUID is not Data1,Data2,Data3 little-endian then Data4", hx(b), hx(wantWire))
+		}
+		want := cat(tSHA256, le32(28+48), le32(0), le32(48), wantWire, data)
+		sl := signature.NewSignatureList(signature.CERT_SHA256_GUID)
+		if err := sl.AppendBytes(g, data); err != nil {
+			fail("AppendBytes of a SHA-256 entry to an empty SHA-256 list failed", err.Error(), "")
+		} else if b := sl.Bytes(); !bytes.Equal(b, want) {
+			fail("SignatureList.Bytes: a SHA-256 list with one entry owned by g is not header ++ wire(g) ++ data", hx(b), hx(want))
+		}
+		rl, err := signature.ReadSignatureList(bytes.NewReader(want))
+		if err != nil || rl == nil || len(rl.Signatures) != 1 || rl.Signatures[0].Owner != g || rl.SignatureType != signature.CERT_SHA256_GUID {
+			fail("ReadSignatureList does not return the type and owner GUIDs that are encoded", fmt.Sprint(err), guidStr(g))
+		}
+	})
+	guard("supported signatures", func() {
+		gs, err := signature.GetSupportedSignatures(bytes.NewReader(cat(wantWire, tSHA256, wantWire)))
+		if err != nil || len(gs) != 3 || gs[0] != g || gs[1] != signature.CERT_SHA256_GUID || gs[2] != g {
+			fail("GetSupportedSignatures does not return the GUIDs that are encoded", fmt.Sprint(err, " ", len(gs)), guidStr(g))
+		}
+	})
+	guard("certificate", func() {
+		body := []byte{1, 2, 3, 4}
+		want := cat(le32(24+4), []byte{0x00, 0x02, 0xf1, 0x0e}, wantWire, body)
+		w := signature.WinCertificateUEFIGUID{Header: signature.WINCertificate{Length: 24 + 4, Revision: 0x0200, CertType: signature.WIN_CERT_TYPE_EFI_GUID}, CertType: g, CertData: body}
+		var b bytes.Buffer
+		signature.WriteWinCertificateUEFIGUID(&b, &w)
+		if !bytes.Equal(b.Bytes(), want) {
+			fail("WriteWinCertificateUEFIGUID: the CertType GUID is not Data1,Data2,Data3 little-endian then Data4", hx(b.Bytes()), hx(want))
+		}
+		if back, err := signature.ReadWinCertificateUEFIGUID(bytes.NewReader(want)); err != nil || back.CertType != g {
+			fail("ReadWinCertificateUEFIGUID does not return the CertType GUID that is encoded", fmt.Sprint(err, " ", guidStr(back.CertType)), guidStr(g))
+		}
+		desc := cat(make([]byte, 16), want)
+		if back, err := signature.ReadEFIVariableAuthencation2(bytes.NewReader(desc)); err != nil || back.AuthInfo.CertType != g {
+			fail("ReadEFIVariableAuthencation2 does not return the CertType GUID that is encoded", fmt.Sprint(err), guidStr(g))
+		} else {
+			var m bytes.Buffer
+			back.Marshal(&m)
+			if !bytes.Equal(m.Bytes(), desc) {
+				fail("EFIVariableAuthentication2.Marshal: the CertType GUID is not Data1,Data2,Data3 little-endian then Data4", hx(m.Bytes()), hx(desc))
+			}
+		}
+	})
+	guard("variable file name", func() {
+		text := canonGUIDText(g) // put together from the fields, not by the library
+		mem := afero.NewMemMapFs()
+		afero.WriteFile(mem, efivarsDir+"/Held-"+text, []byte{7, 0, 0, 0, 0x2a}, 0o644)
+		fw := fswrapper.NewMemoryWrapper()
+		fw.SetFS(mem)
+		if _, buf, err := fw.ReadEfivarsWithGuid("Held", g); err != nil || buf == nil || !bytes.Equal(buf.Bytes(), []byte{0x2a}) {
+			fail("FSWrapper.ReadEfivarsWithGuid does not find the variable stored under <name>-<canonical GUID text>", fmt.Sprint(err), "Held-"+text)
+		}
+		if err := fw.WriteEfivarsWithGuid("Put", 7, []byte{0x2b}, g); err != nil {
+			fail("FSWrapper.WriteEfivarsWithGuid failed on an in-memory filesystem", err.Error(), "")
+		} else if b, err := afero.ReadFile(mem, efivarsDir+"/Put-"+text); err != nil || !bytes.Equal(b, []byte{7, 0, 0, 0, 0x2b}) {
+			fail("FSWrapper.WriteEfivarsWithGuid does not write the variable file <name>-<canonical GUID text>", fmt.Sprint(err, " ", hx(b)), "Put-"+text)
+		}
+		withLegacyFs(mem, func() {
+			if _, buf, err := attributes.ReadEfivarsWithGuid("Held", g); err != nil || buf == nil || !bytes.Equal(buf.Bytes(), []byte{0x2a}) {
+				fail("attributes.ReadEfivarsWithGuid does not find the variable stored under <name>-<canonical GUID text>", fmt.Sprint(err), "Held-"+text)
+			}
+			if err := attributes.WriteEfivarsWithGuid("Put2", 7, []byte{0x2c}, g); err != nil {
+				fail("attributes.WriteEfivarsWithGuid failed on an in-memory filesystem", err.Error(), "")
+			} else if b, err := afero.ReadFile(mem, efivarsDir+"/Put2-"+text); err != nil || !bytes.Equal(b, []byte{7, 0, 0, 0, 0x2c}) {
+				fail("attributes.WriteEfivarsWithGuid does not write the variable file <name>-<canonical GUID text>", fmt.Sprint(err, " ", hx(b)), "Put2-"+text)
+			}
+		})
+	})
+}
 
 var canonGUID = regexp.MustCompile(`^[0-9a-f]{8}-[0-9a-f]{4}-[0-9a-f]{4}-[0-9a-f]{4}-[0-9a-f]{12}$`)
 
@@ -131,6 +260,7 @@ func c17EvalGuid(c *Ctx, cs Case) {
 	if !bytes.Equal(wire.Bytes(), wantWire) {
 		fail("in-structure encoding is not Data1,Data2,Data3 little-endian then Data4", hx(wire.Bytes()), hx(wantWire))
 	}
+	c17GuidStructures(c, cs, g, wantBE, wantWire, fail)
 	if !util.CmpEFIGUID(g, g) {
 		fail("CmpEFIGUID(g,g) is false", "false", "true")
 	}
@@ -191,6 +321,59 @@ func specUtf16(s string) []byte {
 		out = append(out, byte(u), byte(u>>8))
 	}
 	return append(out, 0, 0)
+}
+
+// loaderEntryStores: the two getters of a UTF-16 string variable - Efivarfs.GetLoaderEntrySelected (Efistring through
+// GetVar) and the package-level efi.GetCurrentlyBootedEntry (ParseUtf16Var on the whole value) - on a store whose
+// LoaderEntrySelected variable holds value
+func loaderEntryStores(value []byte) (obj, legacy string) {
+	v := efivar.LoaderEntrySelected
+	mem := afero.NewMemMapFs()
+	afero.WriteFile(mem, efivarsDir+"/"+v.Name+"-"+canonGUIDText(*v.GUID), append([]byte{6, 0, 0, 0}, value...), 0o644)
+	fw := fswrapper.NewMemoryWrapper()
+	fw.SetFS(mem)
+	var str string
+	var err error
+	p, _ := safely(func() { str, err = efivarfs.Open(&efivarfs.EFIFS{FSWrapper: fw}).GetLoaderEntrySelected() })
+	obj = outcomeOfString(p, str, err)
+	withLegacyFs(mem, func() {
+		p, _ = safely(func() { str, err = efi.GetCurrentlyBootedEntry() })
+	})
+	return obj, outcomeOfString(p, str, err)
+}
+
+// nullStringOracle: util.ReadNullString is the scan that delimits a string inside a larger structure. From any
+// reader it returns the bytes up to and including the first terminator code unit (00 00 at an even offset) and
+// leaves the rest unread; without a terminator it returns the bytes that are there - never more, so that no
+// terminator appears that the input does not hold.
+func nullStringOracle(c *Ctx, cs Case, b []byte) {
+	want, rest := b, []byte{}
+	for i := 0; i+1 < len(b); i += 2 {
+		if b[i] == 0 && b[i+1] == 0 {
+			want, rest = b[:i+2], b[i+2:]
+			break
+		}
+	}
+	for _, kind := range []string{"bytes.Buffer", "one-byte", "half"} {
+		src := bytes.NewBuffer(append([]byte{}, b...))
+		var rd io.Reader = src
+		switch kind {
+		case "one-byte":
+			rd = iotest.OneByteReader(src)
+		case "half":
+			rd = iotest.HalfReader(src)
+		}
+		var got []byte
+		if p, msg := safely(func() { got = util.ReadNullString(rd) }); p {
+			c.Fail(Failure{Kind: "property", What: "ReadNullString panicked (" + kind + " reader)", Case: cs, Go: msg})
+			continue
+		}
+		if !bytes.Equal(got, want) {
+			c.Fail(Failure{Kind: "property", What: "ReadNullString (" + kind + " reader) does not return the input up to and including its first terminator code unit (all of it when there is none)", Case: cs, Go: hx(got), Spec: hx(want)})
+		} else if !bytes.Equal(src.Bytes(), rest) {
+			c.Fail(Failure{Kind: "property", What: "ReadNullString (" + kind + " reader) does not leave what follows the terminator unread", Case: cs, Go: hx(src.Bytes()), Spec: hx(rest)})
+		}
+	}
 }
 
 func c17EvalString(c *Ctx, cs Case) {
@@ -255,6 +438,21 @@ func c17EvalString(c *Ctx, cs Case) {
 		c.Fail(Failure{Kind: "property", What: "Efistring.Unmarshal panicked", Case: cs, Go: msg})
 	} else if err != nil || string(es) != s {
 		c.Fail(Failure{Kind: "property", What: "Efistring.Unmarshal(encoding of s ++ tail) != s", Case: cs, Go: fmt.Sprintf("%q err=%v", string(es), err), Spec: fmt.Sprintf("%q", s)})
+	}
+	// the encoding alone (nothing follows the terminator)
+	var es2 efivar.Efistring
+	if p, msg := safely(func() { err = es2.Unmarshal(bytes.NewBuffer(append([]byte{}, enc...))) }); p {
+		c.Fail(Failure{Kind: "property", What: "Efistring.Unmarshal panicked", Case: cs, Go: msg})
+	} else if err != nil || string(es2) != s {
+		c.Fail(Failure{Kind: "property", What: "Efistring.Unmarshal(encoding of s) != s", Case: cs, Go: fmt.Sprintf("%q err=%v", string(es2), err), Spec: fmt.Sprintf("%q", s)})
+	}
+	if len(s) < 200 {
+		// the scan that delimits the string inside a larger structure, and the two variable getters that decode a string
+		nullStringOracle(c, cs, tail)
+		obj, legacy := loaderEntryStores(enc)
+		if want := "ok " + hx([]byte(s)); obj != want || legacy != want {
+			c.Fail(Failure{Kind: "property", What: "a variable that holds the encoding of s does not read back as s (Efivarfs.GetLoaderEntrySelected / efi.GetCurrentlyBootedEntry)", Case: cs, Go: obj + " / " + legacy, Spec: want})
+		}
 	}
 	c.Trace()
 	if m := c.Drv.Ask("utf16.enc", hx([]byte(s))); m != hx(enc) {
@@ -322,6 +520,18 @@ func c17EvalBytes(c *Ctx, cs Case) {
 	if m := c.Drv.Ask("efistring", hx(b)); m != obs {
 		c.Fail(Failure{Kind: "tie", What: "efistring on arbitrary bytes", Case: cs, Model: m, Go: obs})
 	}
+	// the same two decoders reached through the variable getters, and the terminator scan itself
+	objObs, legacyObs := loaderEntryStores(b)
+	if !unit && !strings.HasPrefix(objObs, "err") {
+		c.Fail(Failure{Kind: "property", What: "Efivarfs.GetLoaderEntrySelected: a value without the NUL terminator code unit is not an error", Case: cs, Go: objObs, Spec: "err"})
+	}
+	if !hasTerm && !strings.HasPrefix(legacyObs, "err") {
+		c.Fail(Failure{Kind: "property", What: "efi.GetCurrentlyBootedEntry: a value without the NUL terminator is not an error", Case: cs, Go: legacyObs, Spec: "err"})
+	}
+	if objObs != obs {
+		c.Fail(Failure{Kind: "property", What: "Efivarfs.GetLoaderEntrySelected decodes the value differently than Efistring.Unmarshal decodes the same bytes", Case: cs, Go: objObs, Spec: obs})
+	}
+	nullStringOracle(c, cs, b)
 }
 
 func c17Eval(c *Ctx, cs Case) {
@@ -471,7 +681,7 @@ func c17Gen(c *Ctx) {
 
 func init() {
 	register("C17", &PropDef{
-		Rule:   "GUIDs: boundary patterns (each field 0/1/all-ones/single bits, a zero nibble at every text position) then random 128-bit values; strings: edge code points, BOM, transformer-buffer-straddling lengths, then random NUL-free scalar sequences; arbitrary texts and byte strings for the decoders. Every GUID / string case is a two-step sequence: the results of the first conversions are held while two other GUIDs (the complement and a rotation) / three other strings go through every conversion twice, must then still have their value, are then overwritten by the caller, and the same conversions are repeated and must return what they returned first. A case is non-trivial if it is not the all-zero GUID / the empty string; distinct = distinct case encodings.",
+		Rule:   "GUIDs: boundary patterns (each field 0/1/all-ones/single bits, a zero nibble at every text position) then random 128-bit values; strings: edge code points, BOM, transformer-buffer-straddling lengths, then random NUL-free scalar sequences; arbitrary texts and byte strings for the decoders. Every GUID / string case is a two-step sequence: the results of the first conversions are held while two other GUIDs (the complement and a rotation) / three other strings go through every conversion twice, must then still have their value, are then overwritten by the caller, and the same conversions are repeated and must return what they returned first. Every GUID also goes through the other spellings of the byte form (g.Bytes, WriteGUID into a non-empty buffer), through the library's structure encoders and decoders against bytes put together from the statement (SignatureData owner, SignatureList type and owner, the SignatureSupport array, the CertType of WIN_CERTIFICATE_UEFI_GUID alone and inside an authentication descriptor: little-endian Data1..3 then Data4 out, the same GUID back), and through the variable file name (a file stored under <name>-<canonical text> is the one FSWrapper.Read/WriteEfivarsWithGuid and attributes.Read/WriteEfivarsWithGuid read and write). Every string shorter than 200 bytes is also decoded by Efistring.Unmarshal without a tail, delimited by ReadNullString through three reader kinds (the encoding comes back, the tail stays unread) and read back from a store whose LoaderEntrySelected variable holds its encoding (Efivarfs.GetLoaderEntrySelected, efi.GetCurrentlyBootedEntry); every arbitrary byte string is also handed to those two getters (no terminator: an error) and to ReadNullString (the input up to and including its first terminator code unit, all of it when there is none). A case is non-trivial if it is not the all-zero GUID / the empty string; distinct = distinct case encodings.",
 		Assume: []string{"Go strings handed to MarshalUtf16Var are valid UTF-8 (the property quantifies over valid Unicode strings)"},
 		Eval:   c17Eval,
 		Gen:    c17Gen,
